@@ -695,9 +695,13 @@ def run_hostile(prop, spec, tier, seed, work, replay):
         # ... and the request/reply loops against dealer and meta API of the concurrency family: timing must not wedge the router
         bs = gen_scenarios(work, "Gen", {"Deviations": tla_set([]), "Depth": 10, "Mode": '""', "Scripted": "FALSE"}, 60 if tier == "quick" else 1500, 10,
                            seed * 7919 + 78, "genburst", "%s.burst%d." % (prop, seed), defs={"KindBag": BAG["burstrpc"]})
-        for s in bs:
+        # ... and ordinary traffic of sessions that come and go ("whenever they disconnect"): sessions that
+        # announce only some roles, leave with subscriptions, registrations and calls in place, and are published / called to afterwards
+        cs = gen_scenarios(work, "Gen", {"Deviations": tla_set([]), "Depth": 16, "Mode": '""', "Scripted": "FALSE"}, 80 if tier == "quick" else 1500, 16,
+                           seed * 7919 + 79, "genchurn", "%s.churn%d." % (prop, seed), defs={"KindBag": BAG["churn"]})
+        for s in bs + cs:
             s["epilogue"] = True
-        scns += bs
+        scns += bs + cs
     byid = {s["id"]: s for s in scns}
     tf, crashes = run_exec(work, binary, scns, "ex", timeout=1800)
     for c in crashes:
